@@ -240,11 +240,14 @@ payload_plausible(RPFrame *f)
     switch (f->header.type) {
     case RP_FRAME_READ_REQUEST:
         /* FALLTHROUGH */
-    case RP_FRAME_WRITE_RESPONSE:
-        /* FALLTHROUGH */
     case RP_FRAME_META:
         return (actualsize == 0) ? 0 : -EFAULT;
     case RP_FRAME_READ_RESPONSE:
+        /* FALLTHROUGH */
+    case RP_FRAME_WRITE_RESPONSE:
+        /* Acknowledgements of writes have block size zero and no payload, but
+         * some error responses carry a 32 bit payload (see "Responses in
+         * Detail" in the specification), announced by their block size. */
         /* FALLTHROUGH */
     case RP_FRAME_WRITE_REQUEST:
         return (f->header.blocksize == actualsize) ? 0 : -EFAULT;
